@@ -137,6 +137,35 @@ def make_jobs(tier, seed):
     return groups
 
 
+def tlc_behaviours(tier, seed):
+    """spec -> implementation: behaviours of Engine.tla generated by TLC in simulation mode (Gen_Engine.tla), to be replayed
+    step by step into the real engine. Every build is held at incr_checked and incr_script_done so that the harness can
+    reproduce the order in which the behaviour lets the phases of incremental::run proceed."""
+    quick = tier != "thorough"
+    cfgs = []
+    variants = [("once", dict(BASE, Failures=True, Skips=True, Inherit=True), 300 if quick else 6000),
+                ("once_sig", dict(BASE, Failures=True, Skips=True, Signals=True), 150 if quick else 3000),
+                ("watch", dict(BASE, Watch=True, MaxChanges=3, Skips=True, Inherit=True), 200 if quick else 4000),
+                ("watch_sig", dict(BASE, Watch=True, MaxChanges=2, Signals=True, Failures=True), 100 if quick else 2000)]
+    k = 0
+    for name, consts, num in variants:
+        cfg = write_cfg("Gen_" + name, consts, [], [], "GSpec", False)
+        rc, out = tlc("Gen_Engine.tla", cfg, workers=1, timeout=900, extra=["-simulate", "num=%d" % num, "-depth", "300", "-seed", str(seed)],
+                      metaname="gen_" + name)
+        for line in out.splitlines():
+            line = line.strip()
+            if line.startswith('"BEHAVIOUR '):
+                b = json.loads(json.loads(line)[len("BEHAVIOUR "):])
+                k += 1
+                n = b["n"]
+                builds = [t for t in range(1, n + 1) if b["kind"][t - 1] == "b"]
+                cfgs.append({"id": "g%d" % k, "n": n, "kind": b["kind"], "deps": b["deps"], "roots": b["roots"], "watch": b["watch"],
+                             "may_fail": [t for t in range(1, n + 1) if b["kind"][t - 1] != "a"], "slow": b["slow"], "rec": b["rec"],
+                             "inh": b["inh"], "svc_fail": [], "gates": [[p, t] for t in builds for p in ("incr_checked", "incr_script_done")],
+                             "schedule": b["hist"], "strict": False, "expected_final": b["final"]})
+    return cfgs
+
+
 def shard(groups, nshards, seed, tag):
     """split every group's configurations over the shards so that each shard is one zv process per group"""
     jobs = []
@@ -283,6 +312,9 @@ def suite(tier, seed):
         build_harness()
         mc = run_mc(tier)
         groups = make_jobs(tier, seed)
+        beh = tlc_behaviours(tier, seed)
+        groups.append(("tlc_replay", {"mode": "replay", "max_changes": 99, "signals": True, "max_steps": 400}, beh))
+        log("engine suite: %d TLC-generated behaviours to replay" % len(beh))
         tag = "e%s%d_%d" % (tier[0], seed, os.getpid())
         jobs = shard(groups, NCPU, seed, tag)
         log("engine suite: %d zv jobs" % len(jobs))
@@ -318,7 +350,8 @@ def suite(tier, seed):
             cres = list(ex.map(lambda z: validate_conf(z["name"]), hz))
         log("engine suite: conformance to Engine.tla done in %.0fs" % (time.time() - t1))
         res = {"mc": mc, "tier": tier, "seed": seed, "violations": [], "tool_errors": [], "runs": 0, "traces_validated": 0,
-               "events": 0, "nontrivial": {p: 0 for p in ENGINE_PROPS}, "statuses": {}, "samples": [], "by_group": {}}
+               "events": 0, "nontrivial": {p: 0 for p in ENGINE_PROPS}, "statuses": {}, "samples": [], "by_group": {},
+               "tlc_replay": {"behaviours": 0, "followed_to_the_end": 0}}
         seen_nt = {p: set() for p in ENGINE_PROPS}
         for z, v, (label, name, jp, job) in zip(zres, vres, jobs):
             if z["summary"] is None:
@@ -337,6 +370,10 @@ def suite(tier, seed):
             bounds = v["starts"] + [v["lines"] + 1]
             for k, r in enumerate(runs):
                 res["statuses"][r["status"]] = res["statuses"].get(r["status"], 0) + 1
+                if label == "tlc_replay":
+                    res["tlc_replay"]["behaviours"] += 1
+                    if not r["status"].startswith("diverged"):
+                        res["tlc_replay"]["followed_to_the_end"] += 1
                 if k < len(v["starts"]):
                     ev = v["evs"][bounds[k] - 1:bounds[k + 1] - 1]
                     c = cfgs[r["cfg"]]
@@ -402,6 +439,7 @@ def describe(pid, res):
                                    "wall_s": st["wall_s"]} for n, st in mcs.items()},
         "harness_runs_by_group": res["by_group"], "run_statuses": res["statuses"], "trace_events": res["events"],
         "conformance_to_Engine_tla": res.get("conformance"),
+        "tlc_generated_behaviours_replayed_into_the_code": res.get("tlc_replay"),
     }
     assumptions = [
         "Engine.tla abstractions: relay may take any sender's oldest message; handler-local updates atomic with the receive; "
